@@ -196,6 +196,11 @@ def run(tier):
     maxdev = 3 if tier == "thorough" else 2
     tot = monitors.run_models(rep, ms, depth, dedup_depth_plain=None, max_deviations=maxdev, time_cap=1500 if tier == "thorough" else 110)
     plain = monitors.run_models(rep, ms[:2], 6, dedup_depth_plain=None, max_deviations=None, time_cap=100)
+    # the watchdog on SCTP connections (an inbound and an outbound model; DWR / DWA leave through sctp_send)
+    sm = monitors.sctp_copies([m for m in ms if "/io-thread-last" not in m.name])
+    sm = [m for m in sm if m.name.startswith("inbound-")][:1] + [m for m in sm if m.name.startswith("outbound-")][:1]
+    t3 = monitors.run_models(rep, sm, depth - 4, dedup_depth_plain=None, max_deviations=maxdev, time_cap=400 if tier == "thorough" else 30)
+    monitors.merge_tot(tot, t3)
     rep.cov.update({"states": tot["states"] + plain["states"], "transitions": tot["transitions"] + plain["transitions"],
                     "traces_validated_against_impl": tot["transitions"] + plain["transitions"], "max_depth": tot["max_depth"],
                     "deviation_bound_completed": maxdev, "models": len(ms),
